@@ -374,13 +374,21 @@ func (g *GV) Go() any {
 		case 'o':
 			r := make([]at.Object, 0, len(g.Xs))
 			for _, x := range g.Xs {
-				r = append(r, x.Go().(at.Object))
+				if x.K == 'n' {
+					r = append(r, nil) // a nil Object member
+				} else {
+					r = append(r, x.Go().(at.Object))
+				}
 			}
 			return r
 		case 'l':
 			r := make([]at.List, 0, len(g.Xs))
 			for _, x := range g.Xs {
-				r = append(r, x.Go().(at.List))
+				if x.K == 'n' {
+					r = append(r, nil)
+				} else {
+					r = append(r, x.Go().(at.List))
+				}
 			}
 			return r
 		case 's':
@@ -437,13 +445,21 @@ func (g *GV) Go() any {
 		case 'o':
 			r := make(map[string]at.Object, len(g.Xs))
 			for i, x := range g.Xs {
-				r[g.Keys[i]] = x.Go().(at.Object)
+				if x.K == 'n' {
+					r[g.Keys[i]] = nil
+				} else {
+					r[g.Keys[i]] = x.Go().(at.Object)
+				}
 			}
 			return r
 		case 'l':
 			r := make(map[string]at.List, len(g.Xs))
 			for i, x := range g.Xs {
-				r[g.Keys[i]] = x.Go().(at.List)
+				if x.K == 'n' {
+					r[g.Keys[i]] = nil
+				} else {
+					r[g.Keys[i]] = x.Go().(at.List)
+				}
 			}
 			return r
 		case 's':
